@@ -49,6 +49,25 @@ Example C04_example :
   /\ sem (qM M [] [] (Some 3) (Some [97; 98; 99])) None [] e = Some (VBool false).
 Proof. vm_compute. repeat split. Qed.
 
+(* binary64 arithmetic: 0.1 + 0.2 is not 0.3 but is within f64::EPSILON of it; an integer is converted
+   before a mixed comparison (2^53 + 1 rounds to 2^53); a comparison with NaN (0.0 / 0) is false and
+   NaN is a true truth value; and a regex operand *)
+Example C04_float_example :
+  let f01 := SpecFloat.S754_finite false 7205759403792794 (-56) in
+  let f02 := SpecFloat.S754_finite false 7205759403792794 (-55) in
+  let f03 := SpecFloat.S754_finite false 5404319552844595 (-54) in
+  let two53 := SpecFloat.S754_finite false 4503599627370496 1 in
+  let nan := EBin ODiv (EDouble (SpecFloat.S754_zero false)) (EInt 0) in
+  let ev e := eval (envM [] [] [] (Some 0) (Some [])) None [] e in
+  ev (EBin OEq (EBin OAdd (EDouble f01) (EDouble f02)) (EDouble f03)) = Ok (VBool true)
+  /\ ev (EBin OLt (EDouble f03) (EBin OAdd (EDouble f01) (EDouble f02))) = Ok (VBool true)
+  /\ ev (EBin OGt (EInt 9007199254740993) (EDouble two53)) = Ok (VBool false)
+  /\ ev (EBin OLe nan nan) = Ok (VBool false)
+  /\ ev (EAnd [nan; EBool true]) = Ok (VBool true)
+  /\ ev (EUn (UMatches true false (Hir.NConcat [Hir.NLit 97; Hir.NRep Hir.NDot Regex.OneOrMore true; Hir.NLit 99]))
+            (EBytes [120; 65; 98; 98; 67])) = Ok (VBool true).
+Proof. vm_compute. repeat split. Qed.
+
 Print Assumptions C04_eval_eq_sem.
 Print Assumptions C04_rule_verdict.
 Print Assumptions C04_eval_total.
